@@ -604,6 +604,10 @@ func CheckC15(env *core.Env, rep *core.Report) *core.Result {
 		"contexts:\n  entry: {}\ntasks:\n  entry:\n    context: entry\n    command: [\"true\"]\n",
 		"tasks:\n  entry: {}\npipelines:\n  entry: []\n",
 		"tasks:\n  entry:\n    context: \"\"\n    dir: \"\"\n    command: []\n",
+		// watch / exclude patterns that are not well-formed globs
+		"tasks:\n  entry:\n    command: \"true\"\nwatchers:\n  entry:\n    task: entry\n    watch: [\"[\"]\n",
+		"tasks:\n  entry:\n    command: \"true\"\nwatchers:\n  entry:\n    task: entry\n    watch: [\"*\", \"a[\", \"{a,b\"]\n    exclude: [\"[a-z\"]\n",
+		"tasks:\n  entry:\n    command: \"true\"\nwatchers:\n  entry:\n    task: entry\n    watch: [\"*\"]\n    exclude: [\"[\"]\n",
 	} {
 		dd := env.Sub("sparse")
 		f := filepath.Join(dd, "tasks.yaml")
@@ -618,7 +622,7 @@ func CheckC15(env *core.Env, rep *core.Report) *core.Result {
 	}
 	e.samples.Add(map[string]interface{}{"kind": "envfile", "lines": []string{"kv", "blank", "nokv"}, "predicted": "Rejected"})
 	return e.result("exploration", int(runs), distinct.N(),
-		"structural: every (position, shape) pair of Shapes.tla - positions = top-level keys, the four sections, one entry of each, every documented field of an entry; shapes = null, int, string, empty string, bool, list, map, list of maps, nested list, deleted, duplicated, unknown key - applied to a base document that uses every documented key, serialised to YAML (all) and JSON/TOML (quick 1/3, thorough all; shapes a format cannot express are skipped and counted) and given to list, show, graph, validate; env_file: line sequences of length <=3 over 12 line classes plus a missing file (quick: all of length <=2 and 1/8 of length 3), predicted accept/reject; byte level: truncation at every 1/16, invalid UTF-8 at three offsets, empty / NUL / deeply nested input, YAML anchors, merge keys and alias expansion; six sparse documents (entries with next to no fields, an undefined context without dir); four large valid documents (a layered pipeline with 3^17 paths in both declaration orders, a chain of 300 stages, 300 tasks) that must load, validate and draw within 20 s. distinct_nontrivial = distinct (position, shape, format) and env_file cases executed",
+		"structural: every (position, shape) pair of Shapes.tla - positions = top-level keys, the four sections, one entry of each, every documented field of an entry; shapes = null, int, string, empty string, bool, list, map, list of maps, nested list, deleted, duplicated, unknown key - applied to a base document that uses every documented key, serialised to YAML (all) and JSON/TOML (quick 1/3, thorough all; shapes a format cannot express are skipped and counted) and given to list, show, graph, validate; env_file: line sequences of length <=3 over 12 line classes plus a missing file (quick: all of length <=2 and 1/8 of length 3), predicted accept/reject; byte level: truncation at every 1/16, invalid UTF-8 at three offsets, empty / NUL / deeply nested input, YAML anchors, merge keys and alias expansion; nine sparse documents (entries with next to no fields, an undefined context without dir, watch / exclude patterns that are not well-formed globs); four large valid documents (a layered pipeline with 3^17 paths in both declaration orders, a chain of 300 stages, 300 tasks) that must load, validate and draw within 20 s. distinct_nontrivial = distinct (position, shape, format) and env_file cases executed",
 		map[string]interface{}{"cases_in_model": len(cases), "skipped_not_expressible": skipped, "byte_level_runs": byteRuns},
 		[]string{"'for all byte strings' is addressed structurally plus a fixed set of byte-level perturbations; no claim of coverage of arbitrary bytes",
 			"oracle: exit status 0 or 1, no panic / fatal error / goroutine dump, bounded time (8-10 s); accept/reject predicted only for unknown keys and env_file lines"})
